@@ -103,11 +103,31 @@ type CondEdge struct {
 // DominatingConds returns the boolean conditions (tag switches excluded) every path from
 // the entry to target has evaluated to a fixed truth value.
 func (c *CFG) DominatingConds(target Loc) []CondEdge {
-	var out []CondEdge
 	if !target.Valid() {
 		return nil
 	}
-	toT := LocSet(target)
+	clones := c.Clones(target)
+	out := c.dominatingCondsExact(clones[0])
+	// a node standing in several places is dominated by what dominates every one of them
+	for _, t := range clones[1:] {
+		other := c.dominatingCondsExact(t)
+		var keep []CondEdge
+		for _, a := range out {
+			for _, b := range other {
+				if a == b {
+					keep = append(keep, a)
+					break
+				}
+			}
+		}
+		out = keep
+	}
+	return out
+}
+
+func (c *CFG) dominatingCondsExact(target Loc) []CondEdge {
+	var out []CondEdge
+	toT := exactLoc(target)
 	for _, b := range c.G.Blocks {
 		cond := c.Cond(b)
 		if !b.Live || cond == nil || c.conds[cond] != nil {
@@ -130,7 +150,15 @@ func (c *CFG) DominatingConds(target Loc) []CondEdge {
 // ImpliedAt decides whether the conjunction of the conditions dominating target implies
 // required, for every valuation of the atoms (named by at; unknown leaves are free).
 func (c *CFG) ImpliedAt(target Loc, at Atomizer, named []string, required func(val map[string]bool) bool) bool {
-	return Implied(c.DominatingConds(target), at, named, required)
+	if !target.Valid() {
+		return Implied(nil, at, named, required)
+	}
+	for _, t := range c.Clones(target) {
+		if !Implied(c.dominatingCondsExact(t), at, named, required) {
+			return false
+		}
+	}
+	return true
 }
 
 // Implied: for all valuations, (all conds have their truth) => required.
